@@ -134,7 +134,7 @@ class OracleBudget(Exception):
     pass
 
 
-def aho_is_empty(rules, start="S", budget=300000):
+def aho_is_empty(rules, start="S", budget=120000):
     nts = {start}
     for r in rules:
         nts |= {"end": {r[1]}, "prod": set(r[1:3]), "cons": set(r[2:4]), "dup": set(r[1:4])}[r[0]]
